@@ -5,14 +5,14 @@
 
 static const char *MATGENS[] = { "rand", "rand", "rank", "sparse", "zero", "id", "one" };
 
-static int g_deep, g_strat = -1, g_sliver, g_sliver_n;
+static int g_deep, g_strat = -1, g_sliver, g_sliver_n, g_sliver_wide;
 int gen_dim(rng_t *r, int maxd) {
   if (maxd < 1) maxd = 1;
   if (g_sliver) { /* tiny, huge, tiny, ... : (tiny x huge), (huge x tiny) products, flat eliminations, thin triangular solves */
     int pos = g_sliver_n++;
     int huge = g_sliver == 3 ? pos == 2 : (pos & 1) == (g_sliver - 1);
-    if (huge) return rng_chance(r, 1, 3) ? 65400 + (int)rng_below(r, 4600) : 20000 + (int)rng_below(r, 6000); /* beyond 2 * L2/64 words of the smallest L2 now and then */
-    return rng_chance(r, 1, 3) ? 16 + (int)rng_below(r, 6) : 1 + (int)rng_below(r, 4); /* 16 and more rows: the M4RM code proper instead of its fallback to the naive product */
+    if (huge) return (g_sliver_wide || rng_chance(r, 1, 4)) ? 65400 + (int)rng_below(r, 4600) : 20000 + (int)rng_below(r, 6000); /* beyond 2 * L2/64 words of the smallest L2: always in the small-cache class, now and then otherwise */
+    return rng_chance(r, 2, 3) ? 16 + (int)rng_below(r, 6) : 1 + (int)rng_below(r, 4); /* 16 and more rows: the M4RM code proper instead of its fallback to the naive product */
   }
   if (g_deep && maxd >= 200 && rng_below(r, 4) != 0) return 257 + (int)rng_below(r, 330); /* beyond the 256 of the smallest __M4RI_MUL_BLOCKSIZE */
   int d;
@@ -109,7 +109,8 @@ int gen_case(rng_t *r, const char *op, const genopt_t *g, sbuf_t *o, int rb, int
   if (g->sliver) for (int i = 0; flat_ok[i]; i++) if (!strcmp(op, flat_ok[i])) g_sliver = g->sliver;
   if (g_sliver == 1 && (strstr(op, "mul") || !strncmp(op, "trsm", 4) || strstr(op, "solve") || !strcmp(op, "concat") || !strcmp(op, "stack") || !strcmp(op, "submatrix")))
     g_sliver = 2; /* operations with three dimensions (or a square operand first): tiny first, so that no huge x huge object arises */
-  if (g_sliver && strstr(op, "mul") && rng_chance(r, 1, 2)) g_sliver = 3; /* products: (tiny x tiny) times (tiny x huge) - a very wide right factor */
+  g_sliver_wide = g->sliver == 2; /* the engine runs this class with the smallest caches */
+  if (g_sliver && strstr(op, "mul") && rng_chance(r, 3, 4)) g_sliver = 3; /* products: (tiny x tiny) times (tiny x huge) - a very wide right factor */
   genopt_t gg = *g;
   if (g_sliver) { gg.deep = 0; g_deep = 0; gg.maxdim = 70000; }
   int rc = gen_case_inner(r, op, &gg, o, rb, pb);
@@ -139,7 +140,7 @@ static int gen_case_inner(rng_t *r, const char *op, const genopt_t *g, sbuf_t *o
       sb_printf(o, "op djb %d %d %d %d\n", rb, rb + 1, rb + 2, mode);
       return 3;
     }
-    if (IS("mul_m4rm") || IS("addmul_m4rm")) sb_printf(o, "op %s %d %d %d %d\n", op, rb, rb + 1, rb + 2, (int)rng_below(r, 9));
+    if (IS("mul_m4rm") || IS("addmul_m4rm")) sb_printf(o, "op %s %d %d %d %d\n", op, rb, rb + 1, rb + 2, (g_sliver && rng_chance(r, 2, 3)) ? 0 : (int)rng_below(r, 9)); /* flat operands: mostly the automatic k, which is what looks at the caches */
     else if (IS("mul") || IS("addmul") || IS("mul_mp") || IS("addmul_mp")) sb_printf(o, "op %s %d %d %d %ld\n", op, rb, rb + 1, rb + 2, pick_cutoff(r, m, l, n));
     else sb_printf(o, "op %s %d %d %d\n", op, rb, rb + 1, rb + 2);
     return 3;
